@@ -1,8 +1,8 @@
 CONSTANTS
   ProgOf <- FamProgOf
   MaxSteps = 20000
-  NRandom = 40000
-  RandStmts = 10
+  NRandom = 20000
+  RandStmts = 6
   EmitOn = TRUE
 INIT Init
 NEXT Next
